@@ -9,9 +9,10 @@ def sh(cmd, cwd=W, timeout=1800):
     return p.returncode, (p.stdout + p.stderr)
 if not os.path.exists(W):
     print(sh('git -C /repo worktree add --detach %s HEAD' % W, cwd='/'))
+KS = tuple(int(x) for x in os.environ.get('SEED_KS','1,2,3,4').split(','))
 ids = sys.argv[1:] or sorted(d[:-4] for d in os.listdir('/tmp/mut') if d.endswith('.out'))
 for pid in ids:
-    for k in (1, 2):
+    for k in KS:
         src = '/tmp/mut/%s.out/m%d' % (pid, k)
         if not os.path.exists(src + '/patch.diff'):
             continue
